@@ -4,14 +4,14 @@
 # the 341 tests pass and the demo fails; without it the demo passes. Then stores it under /verif/seeded/<id>/.
 W=$1; N=$2; ID=$3
 cd "$W" || exit 2
-git checkout -q -- htp
+git checkout -q -- 'htp/*.c' 'htp/*.h'
 git apply "out/$N/patch.diff" || { echo "patch does not apply"; exit 2; }
-make -j16 >/dev/null 2>&1 || { echo "BUILD FAILS with patch"; git checkout -q -- htp; exit 1; }
+make -j16 >/dev/null 2>&1 || { echo "BUILD FAILS with patch"; git checkout -q -- 'htp/*.c' 'htp/*.h'; exit 1; }
 make -C test check >/dev/null 2>&1
 T1=$(tail -2 test/test_all.log | head -1)
 gcc -g -I. -Ihtp "out/$N/demo.c" htp/.libs/libhtp.a -lz -lpthread -o "out/$N/demo.with" 2>/dev/null
 (cd "$W" && timeout 120 "out/$N/demo.with" >/tmp/seed-demo-with.$$ 2>&1); R1=$?
-git checkout -q -- htp
+git checkout -q -- 'htp/*.c' 'htp/*.h'
 make -j16 >/dev/null 2>&1; make -C test check >/dev/null 2>&1
 gcc -g -I. -Ihtp "out/$N/demo.c" htp/.libs/libhtp.a -lz -lpthread -o "out/$N/demo.without" 2>/dev/null
 (cd "$W" && timeout 120 "out/$N/demo.without" >/tmp/seed-demo-without.$$ 2>&1); R0=$?
